@@ -101,6 +101,16 @@ CHECKS = {
    note=TRUST + 'Assumed: zip crate by contract (new / len / by_index); which names count as archives is a symbolic flag per file (extension test: C04); '
         'member attributes (to_file_info and the file_info arms of get_field_value) are not covered by this check; check_file summarised. Bounds: 4/5 nodes, <= 2 members.',
    technique=TECH),
+ 'C18': dict(
+   level='model_checking', design_ref='DESIGN.md §5 C18',
+   text='The real walker with the `symlinks` root option runs symbolically from MIR (exec_search -> list_search_results -> visit_dir -> ok_to_visit_dir) over an '
+        'abstract file system with symbolic links: every non-root node may be a link to any node or dangling, spelled absolutely or relative to its own directory; the '
+        'root is an absolute path or `.`. Path spellings are modelled (std::path equality by components, the OS resolves relative text against the cwd, opendir / '
+        'canonicalize follow links), inodes are per node. z3 decides for every link graph that the walk terminates within the unrolling bound, that every entry of every '
+        'directory reachable through directories and links-to-directories is reported exactly once, and that the status is 0. Counterexamples are rebuilt with real symlinks.',
+   note=TRUST + 'Assumed: the file-system contract above; link targets are not links themselves (chains outside the bound); targets lie inside the root tree or are dangling '
+        '(targets above / outside the root — where the depth arithmetic can underflow — are outside the bound); no depth window; check_file summarised. Bounds: 4/5 nodes.',
+   technique=TECH),
 }
 REASON_TODO = 'check not built yet in this session (planned: see DESIGN.md §5); not claimed until it exists'
 NA = {}
